@@ -43,6 +43,7 @@ type pool struct {
 
 func (p *pool) Acquire(ctx context.Context) (v wire) {
 	p.cond.L.Lock()
+	vhook("pool.acq.lock", p, 0, 0)
 
 	// Set up ctx handling when waiting for an available connection
 	if len(p.list) == 0 && p.size == p.cap && !p.down && ctx.Err() == nil && ctx.Done() != nil {
@@ -52,6 +53,7 @@ func (p *pool) Acquire(ctx context.Context) (v wire) {
 		go func() {
 			<-poolCtx.Done()
 			if context.Cause(poolCtx) != errAcquireComplete { // no need to broadcast if the poolCtx is cancelled explicitly.
+				vhook("pool.watch.bcast", p, 0, 0)
 				p.cond.Broadcast()
 			}
 		}()
@@ -59,24 +61,29 @@ func (p *pool) Acquire(ctx context.Context) (v wire) {
 
 retry:
 	for len(p.list) == 0 && p.size == p.cap && !p.down && ctx.Err() == nil {
+		vhook("pool.acq.wait", p, 0, 0)
 		p.cond.Wait()
+		vhook("pool.acq.woken", p, 0, 0)
 	}
 
 	if ctx.Err() != nil {
 		deadPipe := deadFn()
 		deadPipe.error.Store(&errs{error: ctx.Err()})
 		v = deadPipe
+		vhook("pool.acq.ctxdead", p, 0, 0)
 		p.cond.L.Unlock()
 		return v
 	}
 
 	if p.down {
 		v = p.dead
+		vhook("pool.acq.down", p, 0, 0)
 		p.cond.L.Unlock()
 		return v
 	}
 	if len(p.list) == 0 {
 		p.size++
+		vhook("pool.acq.make", p, 0, 0)
 		// unlock before start to make a new wire
 		// allowing others to make wires concurrently instead of waiting in line
 		p.cond.L.Unlock()
@@ -84,6 +91,7 @@ retry:
 		if !v.StopTimer() {
 			p.cond.L.Lock()
 			p.size--
+			vhook("pool.acq.makebad", p, 0, 0)
 			v.Close()
 			goto retry
 		}
@@ -96,9 +104,11 @@ retry:
 	p.list = p.list[:i]
 	if !v.StopTimer() || v.Error() != nil {
 		p.size--
+		vhook("pool.acq.takebad", p, 0, 0)
 		v.Close()
 		goto retry
 	}
+	vhook("pool.acq.take", p, 0, 0)
 	p.cond.L.Unlock()
 	return v
 }
@@ -109,9 +119,11 @@ func (p *pool) Store(v wire) {
 		p.list = append(p.list, v)
 		p.startTimerIfNeeded()
 		v.ResetTimer()
+		vhook("pool.store.keep", p, 0, 0)
 	} else {
 		p.size--
 		v.Close()
+		vhook("pool.store.drop", p, 0, 0)
 	}
 	p.cond.L.Unlock()
 	p.cond.Signal()
@@ -121,6 +133,7 @@ func (p *pool) Close() {
 	p.cond.L.Lock()
 	p.down = true
 	p.stopTimer()
+	vhook("pool.close", p, 0, 0)
 	for _, w := range p.list {
 		w.Close()
 	}
@@ -154,6 +167,7 @@ func (p *pool) removeIdleConns() {
 
 	p.list = p.list[:newLen]
 	p.timerOn = false
+	vhook("pool.idle.removed", p, 0, 0)
 }
 
 func (p *pool) stopTimer() {
